@@ -31,6 +31,9 @@ pub enum Anchor {
     Chain(usize),
     LoopBegin(usize),
     LoopEnd(usize),
+    /// immediately before / after the k-th loop statement
+    LoopBefore(usize),
+    LoopAfter(usize),
     After(String),
     Before(String),
 }
@@ -162,7 +165,9 @@ pub fn parse(text: &str, path: &str) -> Contracts {
                     match parts[2] {
                         "begin" => Anchor::LoopBegin(k),
                         "end" => Anchor::LoopEnd(k),
-                        _ => die(&format!("{}:{}: @insert loop <k> begin|end", path, ln)),
+                        "before" => Anchor::LoopBefore(k),
+                        "after" => Anchor::LoopAfter(k),
+                        _ => die(&format!("{}:{}: @insert loop <k> begin|end|before|after", path, ln)),
                     }
                 } else if a.starts_with("after ") {
                     Anchor::After(unquote(&a["after ".len()..], path, ln))
